@@ -204,7 +204,9 @@ class Gen:
         if kind == "PELT":
             sp = {"cost": pick(["cost_opt", "cost_fix"], private_kinds=("l2", "gv", "ad")), "penalty_scale": self.choice([0.0, 0.5, 2.0]), "min_segment_length": int(r.integers(1, 4))}
         elif kind == "MovingWindow":
-            sp = {"change_score": pick(["cost_opt", "cost_fix", "change_score"], private_kinds=("l2", "gv")), "bandwidth": int(r.integers(2, 6)), "threshold_scale": T(), "level": self.choice([0.01, 0.2]), "min_detection_interval": 1}
+            bw = int(r.integers(2, 9))
+            mdi = int(r.integers(1, max(1, bw // 2 - 1) + 1))
+            sp = {"change_score": pick(["cost_opt", "cost_fix", "change_score"], private_kinds=("l2", "gv")), "bandwidth": bw, "threshold_scale": T(), "level": self.choice([0.01, 0.2]), "min_detection_interval": mdi}
         elif kind == "SeededBinarySegmentation":
             sp = {"change_score": pick(["cost_opt", "cost_fix", "change_score"], private_kinds=("l2", "gv")), "threshold_scale": T(), "level": self.choice([1e-8, 0.1]), "min_segment_length": int(r.integers(1, 4)), "max_interval_length": int(r.integers(8, 25)), "growth_factor": self.choice([1.5, 2.0, 1.2])}
         elif kind == "CircularBinarySegmentation":
@@ -221,7 +223,7 @@ class Gen:
                 "ignore_point_anomalies": bool(r.random() < 0.5),
             }
             if kind == "MVCAPA":
-                sp["collective_penalty"] = self.choice(["combined", "dense", "sparse", {"__fn__": "pen_flat"}, {"__fn__": "pen_steps"}])
+                sp["collective_penalty"] = self.choice(["combined", "combined", "combined", "dense", "sparse", "intermediate", {"__fn__": "pen_flat"}, {"__fn__": "pen_steps"}])
                 sp["point_penalty"] = self.choice(["sparse", "dense", {"__fn__": "pen_flat"}])
         else:
             cands = [n for n in existing]
@@ -242,7 +244,7 @@ class Gen:
     # ------------------------------------------------------------------ steps
     OWN_MENU = {
         "PELT": [("penalty_scale", [0.0, 0.5, 2.0, 3.0, -1.0]), ("min_segment_length", [1, 2, 3, 0])],
-        "MovingWindow": [("bandwidth", [2, 3, 5, 0]), ("threshold_scale", [None, 0.5, 1.0, -2.0]), ("level", [0.01, 0.3])],
+        "MovingWindow": [("bandwidth", [2, 3, 5, 8, 0]), ("threshold_scale", [None, 0.5, 1.0, -2.0]), ("level", [0.01, 0.3]), ("min_detection_interval", [1, 1, 2, 3])],
         "SeededBinarySegmentation": [("min_segment_length", [1, 2, 3]), ("threshold_scale", [None, 0.5, 1.0]), ("max_interval_length", [6, 12, 20, 1]), ("growth_factor", [1.5, 2.0, 2.5])],
         "CircularBinarySegmentation": [("min_segment_length", [2, 3]), ("threshold_scale", [None, 0.5, 1.0]), ("max_interval_length", [8, 10])],
         "CAPA": [("max_segment_length", [4, 9, 15, 1]), ("collective_penalty_scale", [0.5, 2.0, -1.0]), ("ignore_point_anomalies", [True, False]), ("min_segment_length", [2, 3])],
@@ -287,7 +289,7 @@ class Gen:
         if not paths:
             return None
         nested = [p for p in paths if "__" in p[0] or (not cl.is_det and p[0] == "param")]
-        if nested and r.random() < 0.7:
+        if nested and r.random() < 0.5:
             path, vals = self.choice(nested)
         else:
             path, vals = self.choice(paths)
@@ -516,3 +518,354 @@ ASSUMPTIONS = [
     "exceptions are compared by type only",
     "sampling, not enumeration: a clean batch is evidence, not proof",
 ]
+
+
+# --------------------------------------------------------------------------------------
+# crash-site sweep and flaky-peer sweep (DESIGN 4.1, "thorough tier adds")
+# --------------------------------------------------------------------------------------
+REF = {"__ref__": "s0"}
+L2N = {"__cls__": "L2Cost", "params": {"param": None}}
+SWEEP_DETECTORS = {
+    "PELT": ("cost", {"penalty_scale": 1.0, "min_segment_length": 2}, ["l2", "gv", "ad"]),
+    "MovingWindow": ("change_score", {"bandwidth": 3, "threshold_scale": None, "level": 0.2, "min_detection_interval": 1}, ["l2", "cusum", "cs_gv", "ad"]),
+    "SeededBinarySegmentation": ("change_score", {"threshold_scale": 1.0, "level": 1e-8, "min_segment_length": 2, "max_interval_length": 12, "growth_factor": 1.5}, ["l2", "cusum", "ad"]),
+    "CircularBinarySegmentation": ("anomaly_score", {"threshold_scale": 1.0, "level": 1e-8, "min_segment_length": 2, "max_interval_length": 8, "growth_factor": 2.0}, ["l2", "las_gv"]),
+    "CAPA": ("collective_saving", {"point_saving": None, "collective_penalty_scale": 1.0, "point_penalty_scale": 1.0, "min_segment_length": 2, "max_segment_length": 8, "ignore_point_anomalies": True}, ["l2f", "sav_l2f", "l2sav", "adf"]),
+    "MVCAPA": ("collective_saving", {"point_saving": None, "collective_penalty": "combined", "collective_penalty_scale": 1.0, "point_penalty": "sparse", "point_penalty_scale": 1.0, "min_segment_length": 2, "max_segment_length": 8, "ignore_point_anomalies": True}, ["l2f", "l2sav"]),
+    "StatThresholdAnomaliser": ("change_detector", {"stat": {"__fn__": "np.mean"}, "stat_lower": -1.0, "stat_upper": 1.0}, ["pelt_l2"]),
+}
+SWEEP_SCORERS = {
+    "l2": L2N,
+    "gv": {"__cls__": "GaussianVarCost", "params": {"param": None}},
+    "ad": {"__cls__": "AbsDevCost", "params": {"param": None}},
+    "adf": {"__cls__": "AbsDevCost", "params": {"param": 0.5}},
+    "l2f": {"__cls__": "L2Cost", "params": {"param": 0.5}},
+    "cusum": {"__cls__": "CUSUM", "params": {}},
+    "l2sav": {"__cls__": "L2Saving", "params": {}},
+    "cs_gv": {"__cls__": "ChangeScore", "params": {"cost": {"__cls__": "GaussianVarCost", "params": {"param": None}}}},
+    "sav_l2f": {"__cls__": "Saving", "params": {"baseline_cost": {"__cls__": "L2Cost", "params": {"param": 0.5}}}},
+    "las_gv": {"__cls__": "LocalAnomalyScore", "params": {"cost": {"__cls__": "GaussianVarCost", "params": {"param": None}}}},
+    "gc": {"__cls__": "GaussianCovCost", "params": {"param": None}},
+}
+SWEEP_DET_OPS = ["predict", "transform", "transform_scores", "fit", "update"]
+SWEEP_SCORER_OPS = ["s_fit", "s_evaluate"]
+
+
+def sweep_tasks():
+    tasks = []
+    for kind, (pname, params, scorers) in SWEEP_DETECTORS.items():
+        for sc in scorers:
+            for op in SWEEP_DET_OPS:
+                for sharing in (False, True):
+                    tasks.append({"det": kind, "scorer": sc, "op": op, "sharing": sharing, "fault": "interrupt"})
+                    if sc in ("ad", "adf"):
+                        tasks.append({"det": kind, "scorer": sc, "op": op, "sharing": sharing, "fault": "flaky"})
+    for sc in ("l2", "gv", "gc", "cusum", "l2sav", "cs_gv", "sav_l2f", "las_gv", "ad"):
+        for op in SWEEP_SCORER_OPS:
+            tasks.append({"det": "PELT" if sc in ("l2", "gv", "gc", "ad") else None, "scorer": sc, "op": op, "sharing": False, "fault": "interrupt"})
+    return tasks
+
+
+def sweep_trace(task, rng, seed, idx):
+    p = 2 if task["det"] == "MVCAPA" or task["scorer"] == "gc" else 1
+    if task["det"] == "StatThresholdAnomaliser":
+        p = 1
+    n = 16
+
+    def mk(did):
+        x = np.round(rng.normal(size=(n, p)), 2)
+        a = int(rng.integers(3, 8))
+        x[a : a + 4] += 4.0
+        return {"id": did, "family": 0, "container": "df", "dtype": "float64", "index": {"kind": "range", "start": 0}, "columns": [f"v{j}" for j in range(p)], "values": values_to_json(x)}
+
+    datasets = [mk(0), mk(1)]
+    objects = []
+    if task["scorer"] == "pelt_l2":
+        objects.append({"name": "s0", "spec": {"__cls__": "PELT", "params": {"cost": L2N, "penalty_scale": 1.0, "min_segment_length": 2}}})
+    else:
+        objects.append({"name": "s0", "spec": SWEEP_SCORERS[task["scorer"]]})
+    ci = {"s0": 0}
+    if task["det"] is not None:
+        pname, params, _ = SWEEP_DETECTORS[task["det"]]
+        sp = dict(params)
+        sp[pname] = REF
+        objects.append({"name": "d0", "spec": {"__cls__": task["det"], "params": sp}})
+        ci["d0"] = 1
+        if task["sharing"]:
+            # a second client on the very same scorer object
+            if task["det"] == "StatThresholdAnomaliser":
+                sp2 = dict(params, stat_lower=-0.5, stat_upper=0.5)
+                sp2[pname] = REF
+                objects.append({"name": "d1", "spec": {"__cls__": task["det"], "params": sp2}})
+            elif task["scorer"] in ("l2", "gv", "ad", "l2f", "adf"):
+                objects.append({"name": "d1", "spec": {"__cls__": "PELT", "params": {"cost": REF, "penalty_scale": 0.5, "min_segment_length": 3}}})
+            else:
+                sp2 = dict(params)
+                sp2[pname] = REF
+                for k in ("min_segment_length",):
+                    if k in sp2:
+                        sp2[k] = sp2[k] + 1
+                if "bandwidth" in sp2:
+                    sp2["bandwidth"] = 4
+                objects.append({"name": "d1", "spec": {"__cls__": task["det"], "params": sp2}})
+            ci["d1"] = 2
+    is_scorer = task["scorer"] != "pelt_l2"
+    k_cuts = {"l2": 2, "gv": 2, "gc": 2, "ad": 2, "adf": 2, "l2f": 2, "cusum": 3, "cs_gv": 3, "l2sav": 2, "sav_l2f": 2, "las_gv": 4}.get(task["scorer"], 2)
+    base = [0, 4, 9, 14][:k_cuts] if k_cuts < 4 else [0, 4, 9, 14]
+    if k_cuts == 2:
+        base = [2, 12]
+    cuts = [base, [b + 1 for b in base]]
+    chunk = values_to_json(np.round(rng.normal(size=(5, p)), 2))
+    pre, post = [], []
+    op = task["op"]
+    if op.startswith("s_"):
+        pre.append({"op": "fit", "c": 0, "d": 0})
+        if task["det"] is not None:
+            pre.append({"op": "fit", "c": 1, "d": 0})
+        X = {"op": "fit", "c": 0, "d": 1} if op == "s_fit" else {"op": "evaluate", "c": 0, "cuts": cuts}
+        if op == "s_fit":
+            post += [{"op": "fit", "c": 0, "d": 0}, {"op": "evaluate", "c": 0, "cuts": cuts}]
+        else:
+            post += [{"op": "evaluate", "c": 0, "cuts": cuts}, {"op": "evaluate", "c": 0, "cuts": cuts[:1], "cuts_1d": True}]
+        if task["det"] is not None:
+            post += [{"op": "predict", "c": 1, "d": 0}, {"op": "transform_scores", "c": 1, "d": 1}]
+    else:
+        if op != "fit":
+            pre.append({"op": "fit", "c": 1, "d": 0})
+        if task["sharing"]:
+            pre.append({"op": "fit", "c": 2, "d": 1})
+            pre.append({"op": "predict", "c": 2, "d": 1})
+        if op == "update":
+            X = {"op": "update", "c": 1, "like": 0, "values": chunk}
+        else:
+            X = {"op": op, "c": 1, "d": 1}
+        if op in ("fit", "update"):
+            post += [{"op": "fit", "c": 1, "d": 0}]
+        post += [{"op": "predict", "c": 1, "d": 0}, {"op": "transform_scores", "c": 1, "d": 1}, {"op": "transform", "c": 1, "d": 1}]
+        if task["sharing"]:
+            post += [{"op": "predict", "c": 2, "d": 1}, {"op": "fit", "c": 2, "d": 0}, {"op": "transform", "c": 2, "d": 0}]
+        if is_scorer:
+            post += [{"op": "fit", "c": 0, "d": 1}, {"op": "evaluate", "c": 0, "cuts": cuts}]
+    trace = {
+        "property": "C10",
+        "seed": int(seed),
+        "run": int(idx),
+        "tier": "sweep",
+        "config": {"routes": [], "pristine": False, "sweep": task},
+        "datasets": datasets,
+        "objects": objects,
+        "steps": [],
+    }
+    return trace, pre, X, post
+
+
+def run_sweep(seed, idx, tier, pristine=None):
+    """One sweep task: enumerate the crash points (or stub-call indices) of one call and
+    replay the small world once per point."""
+    from histsim.c10 import FAULTS_counts, Sim  # noqa: F401
+
+    tasks = sweep_tasks()
+    task = tasks[idx % len(tasks)]
+    rng = core.make_rng(seed, "C10", 10**6 + idx)
+    trace, pre, X, post = sweep_trace(task, rng, seed, idx)
+    sim = Sim(dict(trace, steps=[]), None)
+    for st in pre:
+        sim.execute(st)
+    cl = sim.clients[X["c"]]
+    arg, _, _, _ = sim.materialise_arg(X, cl)
+    sites, counts = sim.dry_run_sites(X["c"], X["op"], arg)
+    points = []
+    if task["fault"] == "interrupt":
+        by_site = {}
+        for k, s in enumerate(sites, start=1):
+            by_site.setdefault(s, []).append(k)
+        for s, ks in sorted(by_site.items()):
+            chosen = {ks[0]}
+            if tier == "thorough":
+                chosen.add(ks[-1])
+                chosen.add(ks[int(rng.integers(len(ks)))])
+            for k in sorted(chosen):
+                points.append({"kind": "interrupt", "at": k})
+        if tier != "thorough":
+            # quick: a seeded third of the points
+            points = [pt for j, pt in enumerate(points) if (j + idx + seed) % 3 == 0]
+    else:
+        for site, K in sorted(counts.items()):
+            ks = range(1, K + 1) if (tier == "thorough" or K <= 12) else sorted(set(int(v) for v in rng.integers(1, K + 1, size=12)))
+            for k in ks:
+                points.append({"kind": "flaky", "site": site, "at": int(k)})
+    agg_stats = {}
+    total_steps = 0
+    first = None
+    sig = set()
+    for pt in points:
+        tr = dict(trace)
+        Xf = dict(X, fault=pt)
+        tr["steps"] = pre + [Xf] + post
+        s2 = Sim(tr, None)
+        for st in tr["steps"]:
+            s2.execute(st)
+            if s2.violations:
+                break
+        s2.finish()
+        total_steps += len(s2.events)
+        from histsim.runner import merge_stats
+
+        merge_stats(agg_stats, s2.stats)
+        if s2.violations and first is None:
+            first = (tr, s2.violations)
+            break
+    agg_stats.setdefault("probes", {})
+    agg_stats["probes"]["sweep_points"] = len(points)
+    agg_stats["probes"]["sweep_distinct_lines"] = len(set(sites)) if task["fault"] == "interrupt" else 0
+    trace_out = first[0] if first else dict(trace, steps=pre + [X] + post)
+    return {
+        "trace": trace_out,
+        "violations": first[1] if first else [],
+        "stats": agg_stats,
+        "digest": core.digest([task, len(points)]),
+        "signature": core.digest(["sweep", task]),
+        "nontrivial": True,
+        "sig_list": [],
+        "build_failures": sim.build_failures,
+        "sample": None,
+    }
+
+
+def extra_checks(seed, tier, args):
+    """Crash-site and flaky-peer sweeps, plus (thorough) two-interpreter agreement."""
+    from histsim import runner
+
+    tasks = sweep_tasks()
+    if tier == "thorough":
+        idxs = list(range(len(tasks)))
+    else:
+        idxs = [i for i in range(len(tasks)) if (i + seed) % 6 == 0]
+    res = runner.run_batch("C10", seed, tier, idxs, workers=args.workers, per_run_guard=900, chunk=1, fn="run_sweep")
+    ptasks = pair_tasks()
+    pidx = list(range(len(ptasks)))
+    res2 = runner.run_batch("C10", seed, tier, pidx, workers=args.workers, per_run_guard=300, chunk=8, fn="run_pairs")
+    pts = sum(r.get("stats", {}).get("probes", {}).get("sweep_points", 0) for r in res if "stats" in r)
+    extra = {"crash_site_sweep": {"tasks_run": len(idxs), "tasks_total": len(tasks), "points": int(pts), "what": "per (detector x scorer x operation x shared/unshared) and (scorer x fit/evaluate): an interrupt at the first (thorough: also last and one random) dynamic hit of every distinct skchange source line the call executes, and for the stub cost a failure at every k-th stub call; each followed by calls on the interrupted client, the sharing client and the scorer, compared with fresh twins"}}
+    extra["configuration_pair_sweep"] = {"cases": len(pidx), "complete": True, "what": "for every detector x two scorers x data width x hyper-parameter (own and scorer parameter) x ordered value pair (v1, v2) involving the first menu value: A(v1) and B(v2) used one after the other on the same data, then A.set_params(v2) / B.set_params(v1) and refit; every output judged against constructor-, clone- and set_params-built twins in-process and a twin in a pristine process"}
+    return res + res2, extra
+
+
+# --------------------------------------------------------------------------------------
+# configuration-pair sweep: two configurations that differ in exactly one
+# hyper-parameter, used one after the other on the same data in one process, each judged
+# against an in-process twin and a pristine-process twin.  Finds state keyed on
+# "everything but that parameter" (instance-, class- or module-level).
+# --------------------------------------------------------------------------------------
+PAIR_MENU = {
+    "PELT": [("penalty_scale", [0.5, 2.0, 0.0]), ("min_segment_length", [1, 2, 3])],
+    "MovingWindow": [("bandwidth", [3, 4, 6]), ("threshold_scale", [None, 0.5, 2.0]), ("level", [0.2, 0.01]), ("min_detection_interval", [1, 2])],
+    "SeededBinarySegmentation": [("threshold_scale", [1.0, None, 0.3]), ("level", [1e-8, 0.2]), ("min_segment_length", [2, 1, 3]), ("max_interval_length", [12, 8, 20]), ("growth_factor", [1.5, 1.2, 2.0])],
+    "CircularBinarySegmentation": [("threshold_scale", [1.0, None, 0.3]), ("level", [1e-8, 0.2]), ("min_segment_length", [2, 3]), ("max_interval_length", [8, 10]), ("growth_factor", [2.0, 1.5])],
+    "CAPA": [("collective_penalty_scale", [1.0, 0.3, 3.0]), ("point_penalty_scale", [1.0, 0.3]), ("min_segment_length", [2, 3]), ("max_segment_length", [8, 4, 100]), ("ignore_point_anomalies", [True, False])],
+    "MVCAPA": [("collective_penalty_scale", [1.0, 0.3, 3.0]), ("point_penalty_scale", [1.0, 0.3]), ("min_segment_length", [2, 3]), ("max_segment_length", [8, 4, 100]), ("ignore_point_anomalies", [True, False]), ("collective_penalty", ["combined", "dense", "sparse", "intermediate", {"__fn__": "pen_flat"}]), ("point_penalty", ["sparse", "dense"])],
+    "StatThresholdAnomaliser": [("stat_lower", [-1.0, 0.0]), ("stat_upper", [1.0, 2.0]), ("stat", [{"__fn__": "np.mean"}, {"__fn__": "np.median"}]), ("change_detector__penalty_scale", [1.0, 0.3])],
+}
+PAIR_SCORER_PARAM = {
+    "l2": [None, 0.0, 1.0],
+    "gv": [None, tup(0.0, 1.0), tup(0.5, 2.0)],
+    "l2f": [0.5, 0.0, -1.0],
+    "ad": [None, 0.5],
+    "adf": [0.5, 0.0],
+}
+
+
+def pair_tasks():
+    tasks = []
+    for kind, (pname, params, scorers) in SWEEP_DETECTORS.items():
+        for sc in scorers[:2]:
+            for p in ((2, 3) if kind == "MVCAPA" else (1,) if kind == "StatThresholdAnomaliser" else (1, 2)):
+                for path, vals in PAIR_MENU[kind]:
+                    for a in range(len(vals)):
+                        for b in range(len(vals)):
+                            if a != b and (a == 0 or b == 0):
+                                tasks.append({"det": kind, "scorer": sc, "p": p, "path": path, "v1": vals[a], "v2": vals[b]})
+                if sc in PAIR_SCORER_PARAM:
+                    vals = PAIR_SCORER_PARAM[sc]
+                    for a in range(len(vals)):
+                        for b in range(len(vals)):
+                            if a != b and (a == 0 or b == 0):
+                                tasks.append({"det": kind, "scorer": sc, "p": p, "path": pname + "__param", "v1": vals[a], "v2": vals[b]})
+    return tasks
+
+
+def run_pairs(seed, idx, tier, pristine=None):
+    from histsim.c10 import Sim
+
+    tasks = pair_tasks()
+    task = tasks[idx % len(tasks)]
+    rng = core.make_rng(seed, "C10", 2 * 10**6 + idx)
+    kind = task["det"]
+    pname, params, _ = SWEEP_DETECTORS[kind]
+    p = task["p"]
+    n = int(rng.integers(18, 27))
+
+    def mk(did):
+        x = np.round(rng.normal(size=(n, p)), 2)
+        a = int(rng.integers(3, 9))
+        x[a : a + 5, : max(1, p - 1)] += 4.0
+        x[int(rng.integers(n)), 0] += 6.0
+        return {"id": did, "family": 0, "container": "df", "dtype": "float64", "index": {"kind": "range", "start": 0}, "columns": [f"v{j}" for j in range(p)], "values": values_to_json(x)}
+
+    def spec(v):
+        sp = dict(params)
+        if task["scorer"] == "pelt_l2":
+            inner = {"__cls__": "PELT", "params": {"cost": L2N, "penalty_scale": 1.0, "min_segment_length": 2}}
+        else:
+            inner = json_copy(SWEEP_SCORERS[task["scorer"]])
+        sp[pname] = inner
+        if kind == "MovingWindow":
+            sp["bandwidth"] = 6 if task["path"] == "min_detection_interval" else sp["bandwidth"]
+        path = task["path"].split("__")
+        tgt = sp
+        for q in path[:-1]:
+            tgt = tgt[q]["params"]
+        tgt[path[-1]] = v
+        return {"__cls__": kind, "params": sp}
+
+    trace = {
+        "property": "C10",
+        "seed": int(seed),
+        "run": int(idx),
+        "tier": "pairs",
+        "config": {"routes": ["clone", "setp"], "pristine": True, "pairs": task},
+        "datasets": [mk(0), mk(1)],
+        "objects": [{"name": "dA", "spec": spec(task["v1"])}, {"name": "dB", "spec": spec(task["v2"])}],
+        "steps": [
+            {"op": "fit", "c": 0, "d": 0},
+            {"op": "predict", "c": 0, "d": 0},
+            {"op": "transform_scores", "c": 0, "d": 1},
+            {"op": "fit", "c": 1, "d": 0},
+            {"op": "predict", "c": 1, "d": 0},
+            {"op": "transform_scores", "c": 1, "d": 1},
+            {"op": "transform", "c": 1, "d": 1},
+            {"op": "set_params", "c": 0, "path": task["path"], "value": task["v2"]},
+            {"op": "fit", "c": 0, "d": 0},
+            {"op": "predict", "c": 0, "d": 0},
+            {"op": "transform_scores", "c": 0, "d": 1},
+            {"op": "set_params", "c": 1, "path": task["path"], "value": task["v1"]},
+            {"op": "fit_predict", "c": 1, "d": 1},
+            {"op": "transform_scores", "c": 1, "d": 0},
+        ],
+    }
+    sim = Sim(trace, pristine)
+    for st in trace["steps"]:
+        sim.execute(st)
+        if sim.violations:
+            break
+    sim.finish()
+    r = _result(sim, trace)
+    r["signature"] = core.digest(["pairs", task])
+    r["stats"].setdefault("probes", {})["config_pairs"] = 1
+    return r
+
+
+def json_copy(x):
+    import json as _j
+
+    return _j.loads(_j.dumps(x))
